@@ -102,12 +102,36 @@ def parse_asm(fn_src, stale, tag):
         return None
     return {"prog": prog, "operands": operands, "options": options, "regs": regs}
 
-def grab(src, pattern, stale, tag, conv=int):
-    m = re.search(pattern, src)
+NUM = r"(\d[\d_]*|[A-Za-z_][A-Za-z0-9_:]*)"     # a literal or the name of a constant
+
+def resolve(tok, ctx):
+    """value of a numeric token: a literal (`32`, `1_024`, `32usize`) or a named constant defined as
+    `const NAME: <int type> = <literal>;` / `let NAME = <literal>;` / `let NAME: T = <literal>;` in the same file"""
+    tok = tok.strip()
+    m = re.fullmatch(r"(\d[\d_]*)(?:usize|u8|u16|u32|u64|u128|isize|i32|i64)?", tok)
+    if m:
+        return int(m.group(1).replace("_", ""))
+    name = tok.split("::")[-1]
+    for pat in (r"\bconst\s+%s\s*:\s*\w+\s*=\s*(\d[\d_]*)\w*\s*;" % re.escape(name),
+                r"\bstatic\s+%s\s*:\s*\w+\s*=\s*(\d[\d_]*)\w*\s*;" % re.escape(name),
+                r"\blet\s+%s\s*(?::\s*\w+\s*)?=\s*(\d[\d_]*)\w*\s*;" % re.escape(name)):
+        mm = re.search(pat, ctx)
+        if mm:
+            return int(mm.group(1).replace("_", ""))
+    return None
+
+def grab(src, pattern, stale, tag, conv=int, ctx=None):
+    """first match of `pattern` (written with (\\d+) groups) in `src`; the group may also be a named constant, which
+    is looked up in `ctx` (default: `src`), so that `if x.len() <= 32` and `if x.len() <= LONG_MUL_MAX_LEN` both work"""
+    m = re.search(pattern.replace(r"(\d+)", NUM), src)
     if not m:
         stale.append(tag)
         return None
-    return conv(m.group(1))
+    v = resolve(m.group(1), ctx if ctx is not None else src)
+    if v is None:
+        stale.append(tag + ":unresolved:" + m.group(1)[:30])
+        return None
+    return conv(v)
 
 def main():
     stale = []
@@ -124,7 +148,7 @@ def main():
         if f is None:
             stale.append(tag + ":fn")
             continue
-        d = grab(f, r"size\s*/=\s*(\d+)\s*;", stale, tag + ":div")
+        d = grab(f, r"size\s*/=\s*(\d+)\s*;", stale, tag + ":div", ctx=src)
         if d is not None:
             vals[tag + "Div"] = d
         a = parse_asm(f, stale, tag)
@@ -142,15 +166,16 @@ def main():
                          ("halfDen", r"let m2 = y\.len\(\) / (\d+);"),
                          ("karaDen", r"let b = x\.len\(\) / (\d+);"),
                          ("karaSlack", r"let len = x1\.len\(\) \+ y1\.len\(\) \+ (\d+);")):
-            v = grab(mac3, pat, stale, "mul:" + key)
+            v = grab(mac3, pat, stale, "mul:" + key, ctx=mul)
             if v is not None:
                 vals[key] = v
-        m = re.search(r"let i = y\.len\(\) / (\d+) \+ (\d+);", mac3)
-        if m:
-            vals["toomDen"], vals["toomAdd"] = int(m.group(1)), int(m.group(2))
+        m = re.search(r"let i = y\.len\(\) / %s \+ %s;" % (NUM, NUM), mac3)
+        td, ta = (resolve(m.group(1), mul), resolve(m.group(2), mul)) if m else (None, None)
+        if td is not None and ta is not None:
+            vals["toomDen"], vals["toomAdd"] = td, ta
         else:
             stale.append("mul:toom")
-        v = grab(mul3, r"let len = x\.len\(\) \+ y\.len\(\) \+ (\d+);", stale, "mul:mulSlack")
+        v = grab(mul3, r"let len = x\.len\(\) \+ y\.len\(\) \+ (\d+);", stale, "mul:mulSlack", ctx=mul)
         if v is not None:
             vals["mulSlack"] = v
     except (OSError, ValueError):
@@ -164,7 +189,8 @@ def main():
         stale.append("radix:file")
     try:
         mon = read("src/biguint/monty.rs")
-        v = grab(mon, r"let n = (\d+);\n\s*// powers\[i\] contains x\^i", stale, "monty:window")
+        # `let n = 4; … Vec::with_capacity(1 << n)` or a named constant
+        v = grab(mon, r"powers = Vec::with_capacity\(1 << (\d+)\)", stale, "monty:window")
         if v is not None:
             vals["window"] = v
     except OSError:
@@ -182,10 +208,10 @@ def main():
         i2 = rnd.find("fn gen_biguint(&mut self", i + 1)
         j = rnd.find("fn gen_bigint(&mut self", i0)
         g64 = rnd[i2:j] if 0 <= i < i2 < j else ""
-        v = grab(g64, r"bit_size\.div_rem\(&(\d+)\)", stale, "rand:randDiv")
+        v = grab(g64, r"bit_size\.div_rem\(&(\d+)\)", stale, "rand:randDiv", ctx=rnd)
         if v is not None:
             vals["randDiv"] = v
-        v = grab(g64, r"Integer::div_ceil\(&bit_size, &(\d+)\)", stale, "rand:randNative")
+        v = grab(g64, r"Integer::div_ceil\(&bit_size, &(\d+)\)", stale, "rand:randNative", ctx=rnd)
         if v is not None:
             vals["randNative"] = v
     except OSError:
